@@ -1,3 +1,44 @@
-import GocoinV.Model.Qdb
+/-
+  Props.C19 — property theorems for C19 (lib/others/qdb behaves as a durable map). Theorems ONLY; helper
+  lemmas live in GocoinV/Proofs/C19*.lean. Every theorem is about the definitions of GocoinV.Model.Qdb that
+  oracle_c19 executes and go/cmd/c19 compares with the real package.
+-/
+import GocoinV.Proofs.C19
 namespace GocoinV.Props.C19
+open GocoinV GocoinV.Qdb GocoinV.QdbSpec GocoinV.Proofs.C19
+
+/-- Refinement, cached sub-language. For EVERY sequence of Put / PutExt / Del / Get / Browse / ApplyFlags /
+    Defrag / Sync / NoSync (any thresholds, volatile or not, forced or automatic sync and defrag inside)
+    that never sets the NO_CACHE flag, started on a store whose records are all in memory, the store never
+    fails (no os.Exit, no panic) and its content — keys, values and browsing flags — is exactly what the same
+    sequence produces on the in-memory map `QdbSpec.mstep`; Get, Browse and Count after the sequence return
+    what the map returns. (The file system never influences an observation in this sub-language.) -/
+theorem qdb_refines_map_partial (db : DB) (ops : List Op) (h : Cached db) (ok : ∀ op ∈ ops, OpOK op) :
+    (run db ops).failed = none ∧
+    absv (run db ops) = mrun (absv db) ops ∧
+    (∀ k, (Qdb.get (run db ops) k).2 = mget (mrun (absv db) ops) k) ∧
+    (∀ w, WalkOK w → (browse (run db ops) w).2 = mbrowseOut (mrun (absv db) ops)) ∧
+    count (run db ops) = mcount (mrun (absv db) ops) := by
+  obtain ⟨hc, ha⟩ := run_cached ops db h ok
+  refine ⟨hc.1, ha, ?_, ?_, ?_⟩
+  · intro k; rw [← ha]; exact (get_cached _ k hc).2.2
+  · intro w hw; rw [← ha]; exact (browse_cached _ w hc hw).2.2
+  · rw [← ha]; simp [count, mcount, absv]
+
+-- OPEN: qdb_refines_map — the same statement for ALL operation sequences, i.e. including NO_CACHE records
+--   (whose values are read back from the data files: needs the invariant "every record without data in
+--   memory points into an existing <seq>.dat whose bytes [pos,pos+len) are the value, and later writes only
+--   append") and including `Op.reopen` (needs the parse∘serialise round trip of index snapshot + log).
+--   These parts are covered by the correspondence run only.
+
+/-- non-vacuity: a fresh store on an empty directory is cached, and a sequence with forced sync (MaxPending 0),
+    overwrite, delete, NO_BROWSE flag, forced defrag is in the sub-language -/
+example : Cached (openDB {} false true { maxPending := 0 }) ∧
+    (∀ op ∈ [Op.put 1 [1, 2], .putExt 2 [3] NO_BROWSE, .put 1 [], .del 2, .defrag true, .sync, .get 1], OpOK op) := by
+  constructor
+  · exact ⟨by decide, by intro kr hkr; cases hkr⟩
+  · intro op hop
+    simp only [List.mem_cons, List.not_mem_nil, or_false] at hop
+    rcases hop with rfl | rfl | rfl | rfl | rfl | rfl | rfl <;> simp [OpOK] <;> decide
+
 end GocoinV.Props.C19
